@@ -52,7 +52,7 @@ def deletion_family(rng, n, L, alpha, pdel=0.08, psub=0.1):
 
 def gen_alignment_input(rng, cls=None):
     """returns dict(kind, recs, cls)"""
-    cls = cls or rng.choice(["width", "width", "names_long", "names_special", "many_rows", "many_lines", "gapfree", "mixedcase", "bulk", "dup_names", "rows_gt_1024", "ragged_right"])
+    cls = cls or rng.choice(["width", "width", "names_long", "names_special", "many_rows", "many_lines", "gapfree", "mixedcase", "bulk", "dup_names", "rows_gt_1024", "ragged_right", "line_len_sweep"])
     kind = rng.choice(["dna", "protein"])
     alpha = gen.DNA if kind == "dna" else "DEFHIKLMPQRSVWYACGT"
     if cls == "width":
@@ -66,6 +66,14 @@ def gen_alignment_input(rng, cls=None):
         names = gen.names(rng, n, rng.choice(["long", "prefix"]))
         if rng.random() < 0.5:
             names[0] = names[0][:200].ljust(200, "z")
+    elif cls == "line_len_sweep":
+        # block-format lines (name, padding, 60 or fewer columns) whose length walks across 250..262 characters: longest name 180..200, any width
+        n = rng.randint(2, 8)
+        seqs = gen.family(rng, n, rng.choice([61, 70, 100, 125, 150, 175]), alpha, "random", 0.12, 0.03, 3)
+        names = gen.names(rng, n, rng.choice(["s", "rand"]))
+        nl = rng.choice([188, 189, 190, 191, 192]) if rng.random() < 0.5 else rng.randint(180, 200)
+        k = rng.randrange(n)
+        names[k] = (names[k] + "_" + "".join(rng.choice(gen.NAMECHARS) for _ in range(nl)))[:nl]
     elif cls == "names_special":
         n = rng.randint(3, 25)
         seqs = gen.family(rng, n, rng.randint(20, 130), alpha, "random", 0.15, 0.04, 3)
